@@ -72,12 +72,28 @@ STATION_LONS = {1: np.array([-0.5, 10.0, 170.0, -120.0]), 2: np.array([359.5, 10
 STATION_LATS = np.array([0.0, 5.0, -20.0, 30.0])
 
 
-def station_ds(g):
+def station_efth(v):
+    return np.stack([np.full((3, 4), float(k + 1)) + np.eye(3, 4) * (k + 2) for k in range(4)])[None] * np.array([1.0, 0.5])[:, None, None, None] * float(v)
+
+
+def station_ds(g, v=1):
     import xarray as xr
     n = 4
-    efth = np.stack([np.full((3, 4), float(k + 1)) + np.eye(3, 4) * (k + 2) for k in range(n)])
-    return xr.Dataset({"efth": (("site", "freq", "dir"), efth), "lon": (("site",), STATION_LONS[g].copy()), "lat": (("site",), STATION_LATS.copy())},
-                      coords={"site": np.arange(n), "freq": [0.1, 0.2, 0.3], "dir": [0.0, 90.0, 180.0, 270.0]})
+    return xr.Dataset({"efth": (("time", "site", "freq", "dir"), station_efth(v)), "lon": (("site",), STATION_LONS[g].copy()),
+                       "lat": (("site",), STATION_LATS.copy())},
+                      coords={"time": np.array(["2021-03-01T00", "2021-03-01T03"], dtype="datetime64[ns]"), "site": np.arange(n),
+                              "freq": [0.1, 0.2, 0.3], "dir": [0.0, 90.0, 180.0, 270.0]})
+
+
+def swan_text(ds, **kw):
+    """what to_swan writes for this very object (through its cached accessor)."""
+    import os
+    import tempfile
+    with tempfile.TemporaryDirectory() as tmp:
+        f = os.path.join(tmp, "w.spec")
+        ds.spec.to_swan(f, **kw)
+        with open(f, "rb") as fh:
+            return np.frombuffer(fh.read(), dtype=np.uint8).astype(float)
 
 
 def station_observe(ds):
@@ -90,24 +106,34 @@ def station_observe(ds):
             out[name] = (np.asarray(r.efth.values, float), np.asarray(r.lon.values, float), np.asarray(r.lat.values, float))
         except Exception as ex:  # noqa
             out[name] = ("raised", type(ex).__name__)
+    # the ASCII writers stack a copy of the dataset: the file must hold the present contents, and the lons/lats of this call
+    for name, kw in (("to_swan", {}), ("to_swan_at", dict(lons=[20.0, 21.0, 22.0, 23.0], lats=[1.0, 2.0, 3.0, 4.0]))):
+        try:
+            out[name] = (swan_text(ds, **kw),)
+        except Exception as ex:  # noqa
+            out[name] = ("raised", type(ex).__name__)
     return out
 
 
 def station_histories(ctx, hist):
-    fresh = {g: station_observe(station_ds(g)) for g in (1, 2)}
+    fresh = {(g, v): station_observe(station_ds(g, v)) for g in (1, 2) for v in (1, 2)}
     done = set()
     for acts, _ in hist:
-        if any(a not in ("access", "call_other", "set_dir", "call_unknown") for a, _ in acts):
+        if any(a not in ("access", "call_other", "set_dir", "set_efth", "call_unknown") for a, _ in acts):
             continue
         if acts in done:
             continue
         done.add(acts)
         ds = station_ds(1)
-        cg = 1
+        cg, cv = 1, 1
         for a, arg in acts:
             if a == "access":
                 ds.spec
+            elif a == "set_efth":
+                cv = arg
+                ds["efth"] = (("time", "site", "freq", "dir"), station_efth(cv))
             elif a == "call_other":
+                swan_text(ds, lons=[10.0, 11.0, 12.0, 13.0], lats=[0.0, 0.0, 0.0, 0.0])      # an earlier write: nothing of it may survive
                 ds.spec.sel([9.0], [5.5], method="nearest", tolerance=5.0)
                 try:
                     ds.spec.sel([-130.0, -100.0], [20.0, 40.0], method="bbox", tolerance=0.0)     # a box written in [-180,180]
@@ -124,7 +150,7 @@ def station_histories(ctx, hist):
         got = station_observe(ds)
         for name in got:
             ctx.case(("station", acts, name), bool(acts))
-            a, b = got[name], fresh[cg][name]
+            a, b = got[name], fresh[(cg, cv)][name]
             same = (a[0] == "raised" and b[0] == "raised" and a[1] == b[1]) if (isinstance(a[0], str) or isinstance(b[0], str)) else \
                 all(x.shape == y.shape and np.allclose(x, y, rtol=1e-12, atol=1e-12, equal_nan=True) for x, y in zip(a, b))
             if same:
